@@ -41,7 +41,9 @@ def compare(mod, r):
         return ("value", "a transient Interrupted from the underlying reader, retried, changed what was delivered / parsed: " + r["dev"].split("flaky=DIFF")[1][:200])
     if "rel" in r and r["rel"] != r["dev"]:
         return ("devrel", "debug and release builds answer differently (release runs the cases in the opposite order: build-dependent arithmetic, or state carried between calls)")
-    if r["model"] is None:
+    if r["model"] is None or "MODEL-STACK-OVERFLOW" in r["model"]:
+        # no model answer (implementation-only case, or the extracted model ran out of stack on a very large input - a
+        # limit of the tool, counted in the evidence, not a statement about the crate): the oracles still judge the answer
         return None
     canon = getattr(mod, "canon", lambda c, a: a)
     from vlib.props.C04 import canon as fps_canon   # the model prints fps as an exact rational, the crate as f64 bits
@@ -160,6 +162,7 @@ def run_property(ck, pid, tier, seed, replay):
             for r, d in mod.cross_check(results):
                 bad.append((r, d, "cross"))
         cov["evaluations"] = len(results)
+        cov["model_out_of_stack"] = sum(1 for r in results if r["model"] and "MODEL-STACK-OVERFLOW" in r["model"])
         cov["distinct_nontrivial"] = len(distinct)
         cov["rule"] = getattr(mod, "RULE", "")
         cov["exhaustive"] = bool(getattr(mod, "EXHAUSTIVE", False))
